@@ -325,6 +325,13 @@ theorem refused_done_touches_nothing (s : LockCallers.State) (c : Nat) (hpc : s.
   simp only [LockCallers.step, hpc]; exact ⟨trivial, trivial⟩
 
 open ClairModel.LockCallers in
+/-- … and it may return without calling it at all (Manager.Run, fetchOne and the
+    GC section do call it; nothing depends on that). -/
+theorem refused_may_return (s : LockCallers.State) (c : Nat) (hpc : s.pc c = .refused) :
+    (LockCallers.step s (.ret c)).2 = .retd 3 ∧ (LockCallers.step s (.ret c)).1.lk = s.lk := by
+  simp only [LockCallers.step, hpc]; exact ⟨trivial, trivial⟩
+
+open ClairModel.LockCallers in
 /-- The caller looks at the context it was given: the body runs exactly when the
     parent context is not cancelled at that moment; otherwise the call is on its
     way out with the release pending. -/
